@@ -21,6 +21,8 @@ import (
 	"sort"
 	"strconv"
 	"strings"
+	"sync"
+	"sync/atomic"
 	"time"
 
 	"github.com/pingcap/failpoint"
@@ -81,6 +83,36 @@ func clean(s string) string {
 
 type wrapper struct{ *unistore.RPCClient }
 
+// dropResolve: ResolveLock RPCs are lost (the asynchronous lock resolution of a read does not land), so a
+// leftover lock stays where it is while the reader goes on with its committed-lock / ignored-lock sets
+var dropResolve atomic.Bool
+var committedLocksSeen sync.Map // txn start ts -> true: seen in the committed_locks of a read request
+
+func (c *wrapper) SendRequest(ctx context.Context, addr string, req *tikvrpc.Request, timeout time.Duration) (*tikvrpc.Response, error) {
+	if dropResolve.Load() && req.Type == tikvrpc.CmdResolveLock {
+		// answered with a key error (a send error would mark the only store unreachable)
+		return &tikvrpc.Response{Resp: &kvrpcpb.ResolveLockResponse{Error: &kvrpcpb.KeyError{Abort: "injected: resolve lock refused"}}}, nil
+	}
+	if req.Type == tikvrpc.CmdGet || req.Type == tikvrpc.CmdBatchGet || req.Type == tikvrpc.CmdScan {
+		for _, t := range req.Context.GetCommittedLocks() {
+			committedLocksSeen.Store(fmt.Sprintf("%d@%d", t, readVersion(req)), true)
+		}
+	}
+	return c.RPCClient.SendRequest(ctx, addr, req, timeout)
+}
+
+func readVersion(req *tikvrpc.Request) uint64 {
+	switch req.Type {
+	case tikvrpc.CmdGet:
+		return req.Get().Version
+	case tikvrpc.CmdBatchGet:
+		return req.BatchGet().Version
+	case tikvrpc.CmdScan:
+		return req.Scan().Version
+	}
+	return 0
+}
+
 func (c *wrapper) SendRequestAsync(ctx context.Context, addr string, req *tikvrpc.Request, cb async.Callback[*tikvrpc.Response]) {
 	go func() { cb.Schedule(c.RPCClient.SendRequest(ctx, addr, req, tikv.ReadTimeoutShort)) }()
 }
@@ -103,6 +135,11 @@ var kindName = []string{"commit", "1pc", "async", "async-primary", "2pc-primary"
 var alphabet = [][]byte{[]byte("a"), []byte("a\x00"), []byte("ab"), []byte("b"), []byte("b\xff"), []byte("c"), []byte("cc"), []byte("d"),
 	[]byte("e"), []byte("f"), []byte("g"), []byte("g\x00"), []byte("h"), []byte("m"), []byte("z")}
 
+type primTxn struct {
+	start, commit uint64
+	secondaries   [][]byte
+}
+
 type env struct {
 	store   *tikv.KVStore
 	cluster testutils.Cluster
@@ -110,6 +147,7 @@ type env struct {
 	r       *rand.Rand
 	hid     int
 	desc    []string
+	prims   []primTxn // transactions whose primary is committed and whose secondaries are still locked
 }
 
 func (e *env) split(k []byte) {
@@ -218,7 +256,8 @@ func (e *env) build() (tsMid uint64) {
 			must(tpc.PrewriteAllMutations(ctx))
 			first := 0
 			if kind == kAsyncPrim || kind == kTwoPCPrim {
-				e.commitPrimary(ks[0], txn.StartTS())
+				c := e.commitPrimary(ks[0], txn.StartTS())
+				e.prims = append(e.prims, primTxn{start: txn.StartTS(), commit: c, secondaries: ks[1:]})
 				first = 1
 			}
 			for _, k := range ks[first:] {
@@ -411,6 +450,34 @@ func runHistory(seed int64, hid int, tmp string) {
 	ts1 := e.ts()
 	var lines []string
 	all := append(append([][]byte{}, e.keys...), []byte("absent"))
+	// backward move below a commit (first thing after the history is built, so that the leftover locks are
+	// still there): a snapshot at "now" meets the secondary lock of a transaction T whose primary is
+	// committed at c <= now, reads through it (T goes into the snapshot's committed-lock set; the
+	// asynchronous ResolveLock is lost, so the lock stays); the SAME snapshot object is then moved BACK to
+	// c-1: T is not committed at that timestamp, its value must not be read
+	if len(e.prims) > 0 {
+		pt := e.prims[r.Intn(len(e.prims))]
+		dropResolve.Store(true)
+		sb := store.GetSnapshot(ts1)
+		for _, k := range pt.secondaries {
+			lines = append(lines, fmt.Sprintf("GET\t%d\tbm-before\t%s\t%s\t=>\t%s", hid, u64s(ts1), hx(k), doGet(sb, k)))
+		}
+		tsBack := pt.commit - 1
+		sb.SetSnapshotTS(tsBack)
+		for _, k := range pt.secondaries {
+			lines = append(lines, fmt.Sprintf("GET\t%d\tbm-after\t%s\t%s\t=>\t%s", hid, u64s(tsBack), hx(k), doGet(sb, k)))
+		}
+		lines = append(lines, fmt.Sprintf("BGET\t%d\tbm-after\t%s\t%s\t=>\t%s", hid, u64s(tsBack), hxs(all), doBatchGet(sb, all)))
+		lines = append(lines, fmt.Sprintf("SCAN\t%d\tbm-after\t%s\t-\t-\t%d\t0\t0\t1\t=>\t%s\t!", hid, u64s(tsBack), 256, doScan(sb, nil, nil)))
+		lines = append(lines, fmt.Sprintf("BGET\t%d\tbm-fresh\t%s\t%s\t=>\t%s", hid, u64s(tsBack), hxs(all), doBatchGet(store.GetSnapshot(tsBack), all)))
+		sb.SetSnapshotTS(ts1)
+		lines = append(lines, fmt.Sprintf("BGET\t%d\tbm-forward-again\t%s\t%s\t=>\t%s", hid, u64s(ts1), hxs(all), doBatchGet(sb, all)))
+		dropResolve.Store(false)
+		// the request field itself: after the move no read request at tsBack may name T as committed
+		if _, leaked := committedLocksSeen.Load(fmt.Sprintf("%d@%d", pt.start, tsBack)); leaked {
+			lines = append(lines, fmt.Sprintf("LATER\t%d\t%s\t%s\t=>\tcommitted-lock-leaked-across-move", hid, u64s(pt.start), u64s(tsBack)))
+		}
+	}
 	for pass, ts := range []uint64{ts1, tsMid} {
 		label := []string{"uni-now", "uni-mid"}[pass]
 		s := store.GetSnapshot(ts)
